@@ -3565,7 +3565,12 @@ fn case_c16(seed: u64, idx: usize, cache: &TableCache, out: &mut String, st: &mu
         let d = sc.verif_dump();
         let tb = cache.tables(&sc, &d);
         let inp = cfggen::gen_input(&mut r, &d, &tb, 6);
-        if let Some(me) = sc.find_iter(&inp).with_positions().next() {
+        // (the iterator is dropped before `inp`: an iterator type with a destructor must not break the harness)
+        let first_ext = {
+            let mut it = sc.find_iter(&inp).with_positions();
+            it.next()
+        };
+        if let Some(me) = first_ext {
             let mut te = String::new();
             jsonser::ser_value(&serde_json::to_value(me).unwrap(), &mut te);
             let _ = writeln!(out, "jmatchext {} {} {} {} {} {} {}\nexpect json{}", me.token_type(), me.start(), me.end(),
